@@ -457,7 +457,7 @@ def judge(ctx, results, per_batch=None):
     """results: outputs of work().  Returns {run_id: [records printed by the T-layer]} (REJECT and NOTE records)."""
     good = [r for r in results if not r["error"]]
     if not good:
-        return {}
+        return {}, {}
     per_batch = per_batch or max(1, min(40, -(-len(good) // NCPU)))
     tdir = ctx.scratch / ("tr%d" % len(list(ctx.scratch.glob("tr*"))))
     tdir.mkdir()
@@ -477,7 +477,7 @@ def judge(ctx, results, per_batch=None):
         p, n = job
         return tlc.run_tlc(tlc.SPECS / "HtmlDocTrace.tla", cfg, ctx.scratch, workers=1, timeout=3000, env={"TRACE_FILE": str(p)}, xmx="3g"), n, p
 
-    out = {}
+    out, judged = {}, {}
     with concurrent.futures.ThreadPoolExecutor(max_workers=NCPU) as ex:
         for res, n, p in ex.map(one, jobs):
             if not res.ok or res.distinct != n + 1:
@@ -486,11 +486,14 @@ def judge(ctx, results, per_batch=None):
             ctx.cov["states"] += res.distinct
             ctx.cov["transitions"] += res.generated
             for rec in res.json_lines():
+                if rec["tag"] == "LINKS":
+                    judged[rec["run"]] = rec["judged"]
+                    continue
                 out.setdefault(rec["pg"] // 1000 if rec["pg"] else -1, []).append(rec)
     shutil.rmtree(tdir, ignore_errors=True)
     if -1 in out:
         raise MachineryFailure("T-layer record without a page: %r" % out[-1][:3])
-    return out
+    return out, judged
 
 
 def page_kind(path):
@@ -536,7 +539,7 @@ def sentinel_class(res, rec, cache):
 
 def verdicts(ctx, results, cases, origin, only=None):
     """turn the T-layer's records into VIOLATION / notes.  Returns per run the set of (clause, page, detail...) for drift checks."""
-    recs = judge(ctx, results)
+    recs, judged = judge(ctx, results)
     summary = {}
     for r in results:
         if r["error"]:
@@ -615,6 +618,12 @@ def verdicts(ctx, results, cases, origin, only=None):
                 report(sig, "hyperlink %r for a reference to %s on page %s does not resolve: %s"
                        % (href, ", ".join(uni.full(T[i]) for i in rec["refs"]), path, rec["detail"]),
                        page=path, clause="html.link", detail=rec["detail"], href=href)
+        # every type-reference hyperlink the harness saw on the pages was put before the link clause of P, whatever its style
+        # (asserted on runs whose pages are read as the generator wrote them, i.e. without injected markup)
+        if not pages_rej and judged.get(rid) != len(r["obs"]["links"]):
+            raise MachineryFailure("run %d: the T-layer judged %r type-reference hyperlinks, the pages carry %d"
+                                   % (rid, judged.get(rid), len(r["obs"]["links"])))
+        ctx.cov["links_judged_by_P"] = ctx.cov.get("links_judged_by_P", 0) + (judged.get(rid) or 0)
         npages = len(r["index"])
         bad_pages = len(set(pages_rej) | {rec["pg"] for rec in rr if rec["tag"] == "REJECT"})
         ctx.validated(npages - bad_pages)
@@ -631,20 +640,22 @@ def seg(x):
 
 
 def universe_from_shape(sh, payloads, k):
-    """the DSDL universe for a type-graph shape emitted by HtmlDocGen (LinkStims), docs filled with payloads k, k+1, ..."""
+    """the DSDL universe for a type-graph shape emitted by HtmlDocGen (LinkStims), docs filled with payloads k, k+1, ...
+    Namespace and type names are the model's (they include names that are string prefixes of each other without being ancestors)."""
     skind = {"service_req": "service", "service_resp": "service"}.get(sh["skind"], sh["skind"])
     dep = sh["dkind"] == "deprecated"
     dkind = "struct" if dep else sh["dkind"]
+    n1, n2, n3 = seg(sh["names"])
     spans = {i + 1: payloads[(k + i) % len(payloads)] for i in range(5)}
     types = [
-        {"ns": seg(sh["dst"]), "name": "Zqt1", "kind": dkind, "deprecated": dep, "refs": [], "doc": 1, "fdoc": 2, "cdoc": 3,
+        {"ns": seg(sh["dst"]), "name": n1, "kind": dkind, "deprecated": dep, "refs": [], "doc": 1, "fdoc": 2, "cdoc": 3,
          "cval": CVALS[k % len(CVALS)]},
-        {"ns": seg(sh["src"]), "name": "Zqt2", "kind": skind, "deprecated": dep,
+        {"ns": seg(sh["src"]), "name": n2, "kind": skind, "deprecated": dep,
          "refs": [{"to": 0, "how": sh["how"], "where": "resp" if sh["skind"] == "service_resp" else "field"}], "doc": 4,
          "cval": CVALS[(k + 3) % len(CVALS)]},
     ]
     if sh["chain"]:
-        types.append({"ns": ["zqra", "zqs"], "name": "Zqt3", "kind": "struct", "deprecated": dep, "refs": [{"to": 1, "how": "plain"}]})
+        types.append({"ns": ["zqra", "zqs"], "name": n3, "kind": "struct", "deprecated": dep, "refs": [{"to": 1, "how": "plain"}]})
     return {"types": types, "nsdocs": [{"ns": seg(sh["src"]), "doc": 5}], "spans": spans}
 
 
@@ -652,12 +663,12 @@ RAND_TOKENS = ["<", ">", "&", '"', "'", "</pre>", "<script>alert(1)</script>", "
                "</div>", "<div>", "<p>", "</p>", '<a href="x">', "<img src=x onerror=alert(1)>", "<style>", "</style>", "<script>", "</script>",
                "&amp;", "&lt;", "&#60;", "&lt", "\\", "é", "€", "\U0001F600", " ", "\t", " ", "x", "=", "/", "`",
                "<svg/onload=alert(1)>", "<textarea>", "<title>", "</title>", "<b", "</", "<br>", "<br/>", "javascript:alert(1)", "\n"]
-NS_SEGS = ["zqs", "zqu", "zqv", "zqw"]
+NS_SEGS = ["zqs", "zqsx", "zqu", "zquv", "zqv"]  # some are string prefixes of others
 
 
 def rand_universe(rng):
     nroots = rng.choice([1, 2, 2, 3])
-    roots = ["zqra", "zqrb", "zqrc"][:nroots]
+    roots = rng.sample(["zqra", "zqrax", "zqrb"], nroots)  # zqra is a string prefix of zqrax
     nss = [[r] for r in roots]
     for _ in range(rng.randint(1, 5)):
         base = rng.choice(nss)
@@ -679,7 +690,9 @@ def rand_universe(rng):
 
     for i in range(nt):
         kind = rng.choice(["struct", "struct", "delimited", "union", "service"])
-        t = {"ns": rng.choice(nss), "name": "Zqt%d" % i, "kind": kind, "deprecated": rng.random() < 0.15, "refs": [],
+        # a third of the short names extend the name of a namespace segment (zqsZqt3 next to namespace zqs)
+        name = ("%sZqt%d" % (rng.choice(NS_SEGS), i)) if rng.random() < 0.34 else "Zqt%d" % i
+        t = {"ns": rng.choice(nss), "name": name, "kind": kind, "deprecated": rng.random() < 0.15, "refs": [],
              "doc": payload(True) if rng.random() < 0.8 else 0, "fdoc": payload(False) if rng.random() < 0.5 else 0,
              "cdoc": payload(False) if rng.random() < 0.3 else 0, "cval": rng.choice(CVALS)}
         cands = [j for j in range(i) if types[j]["kind"] != "service"]
@@ -751,9 +764,11 @@ def run(ctx):
     if neg.violated != "NoSpanEverAccepted":
         raise MachineryFailure("vacuity control: no token string with a sentinel span is accepted by the acceptor (%s)" % neg.error)
     tlc.check_model(ctx, "HtmlDocGen", "HtmlDocGen", timeout=3000,
-                    constants="EscMode=markupsafe LinkStyle=fixed: 820 payloads (<=3 of 9 special tokens) x {pre, attribute} + 1536 type-graph shapes")
+                    constants="EscMode=markupsafe LinkStyle=fixed: 820 payloads (<=3 of 9 special tokens) x {pre, attribute} + 3456 type-graph shapes over 6 namespaces incl. string-prefix-related names")
     controls = {}
-    for cfg, inv in (("HtmlDocGen_negtext", "TextRefinesP"), ("HtmlDocGen_neglinks", "LinksRefineP")):
+    tlc.check_model(ctx, "HtmlDocGen", "HtmlDocGen_samepage", timeout=3000,
+                    constants="LinkStyle=samepage (bare #anchor for types listed on the page, decided on name components): 3456 shapes")
+    for cfg, inv in (("HtmlDocGen_negtext", "TextRefinesP"), ("HtmlDocGen_neglinks", "LinksRefineP"), ("HtmlDocGen_negprefix", "LinksRefineP")):
         neg = tlc.run_tlc(tlc.SPECS / "HtmlDocGen.tla", tlc.SPECS / (cfg + ".cfg"), ctx.scratch)
         if neg.violated != inv:
             raise MachineryFailure("negative control %s: the variant of the unchanged tree was not refuted (%s %s)" % (cfg, neg.error, neg.violated))
@@ -766,18 +781,22 @@ def run(ctx):
     vocab = [r for r in emitted if r["kind"] == "vocab"]
     texts = [r for r in emitted if r["kind"] == "text"]
     shapes = [r for r in emitted if r["kind"] == "links"]
-    if len(texts) != 820 or len(shapes) < 900 or not vocab:
+    if len(texts) != 820 or len(shapes) < 2160 or not vocab:
         raise MachineryFailure("emission incomplete: %d payloads, %d shapes" % (len(texts), len(shapes)))
     check_oracle(ctx, vocab[0], shapes)
     payloads = [to_s(t["text"]) for t in texts]
-    # quick: one third of the shapes - in canonical order the array kind varies fastest, the selection takes one array kind per
-    # (referrer namespace, target namespace, referrer kind, target kind) and rotates it, so every such combination is generated
-    shapes.sort(key=lambda r: (r["src"], r["dst"], r["skind"], r["dkind"], r["chain"], r["how"]))
+    # quick: one sixth of the shapes - in canonical order (target kind, array kind) vary fastest (12 combinations per
+    # (referrer namespace, target namespace, referrer kind)); the selection takes two of the twelve and rotates them, so every ordered
+    # pair of namespaces (incl. the prefix-related ones, both directions) is generated with every referrer kind
+    shapes.sort(key=lambda r: (r["src"], r["dst"], r["skind"], r["chain"], r["dkind"], r["how"]))
+    nochain = sum(1 for r in shapes if not r["chain"])
+    if nochain % 12 or any(r["chain"] for r in shapes if ctx.quick):
+        raise MachineryFailure("unexpected shape space: %d shapes" % len(shapes))
     cases, jobs = {}, []
     scratch = str(ctx.scratch)
     hostile = 0
     for i, sh in enumerate(shapes):
-        if ctx.quick and (i + i // 3) % 3:
+        if ctx.quick and (i % 12 - i // 12) % 6:
             continue
         rid = len(cases)
         public = rid % ctx.pick(16, 8) == 5
@@ -794,7 +813,7 @@ def run(ctx):
         raise MachineryFailure("not every enumerated payload was planted (%d slots for %d payloads)" % (5 * hostile, len(payloads)))
     n_model = len(cases)
     # ---- 3. code -> spec: larger random universes (deeper trees, more types, payloads over a larger alphabet) ----------
-    for _ in range(ctx.pick(160, 2500)):
+    for _ in range(ctx.pick(160, 2000)):
         rid = len(cases)
         public = rid % 10 == 3
         cases[rid] = {"universe": rand_universe(ctx.rng), "public": public}
@@ -887,7 +906,7 @@ def compare_with_ilayer(ctx, cases, by_run, summary, texts, n_model):
         c, s = cases[rid], summary[rid]
         sh = c["shape"]
         # text: the stub page of Zqt1 carries exactly one span (its type doc, span 1) inside <pre>
-        stub = "/".join(seg(sh["dst"]) + ["Zqt1_1_0.html"])
+        stub = "/".join(seg(sh["dst"]) + [to_s(sh["names"][0]) + "_1_0.html"])
         if stub in r["sizes"] and c["universe"]["spans"][1] in pred:
             obs = frozenset((["html.sentinel"] if stub in s["sentinel"] else []) + (["html.balanced"] if stub in s["balanced"] else []))
             pn, pe = pred[c["universe"]["spans"][1]]
@@ -939,7 +958,7 @@ def selftests(ctx):
         with open(p, "w") as f:
             for e in ev2:
                 f.write(json.dumps(e, separators=(",", ":")) + "\n")
-        recs = judge(ctx, [dict(base, trace=str(p), nev=len(ev2), run=0)], per_batch=1).get(0, [])
+        recs = judge(ctx, [dict(base, trace=str(p), nev=len(ev2), run=0)], per_batch=1)[0].get(0, [])
         return collections.Counter((r["clause"], r["detail"]) for r in recs if r["tag"] == "REJECT")
 
     def copy():
